@@ -62,7 +62,8 @@ def gen_c11_spec(rng: random.Random) -> Dict[str, Any]:
                 b["dur"] = []
                 if b["out"] == "raise:CancelledError":
                     b["out"] = "raise:ValueError"
-        snd: Dict[str, Any] = {"tok": tok, "task": task, "beh": beh, "labels": labels, "at": rng.choice([0, 0, 0.01])}
+        snd: Dict[str, Any] = {"tok": tok, "task": task, "beh": beh, "labels": labels, "at": rng.choice([0, 0, 0.01]),
+                               "via_with_labels": rng.random() < 0.4}
         if task == "t_async" and rng.random() < 0.2:
             # a parameter typed as a model with a generated field the sender left out: the value the first attempt
             # saw is part of the arguments every further attempt must get
